@@ -56,6 +56,7 @@ def table : List ModelEntries :=
   , Entries.threadpool
   , Entries.newthread
   , Entries.trampoline
+  , Entries.inlinesched
   , Entries.scopev2
   , Entries.scopev1
   , Entries.scopev0
